@@ -92,6 +92,10 @@ def handlers : List (String × Handler) := [
         ("ps", ratsToJson [t.psRow, t.psCol]),
         ("sbs", match t.sbs with | some h => ratToJson h | none => Json.null)]))
     | _, _ => throw "d of 3 vectors and s of 3 expected"),
+  ("recordedTiledOrigin", fun j => do
+    let r := recordedTiledOrigin (← getV3 j "user") (← getV3 j "src") (← getBool j "same_orientation")
+      (← getBool j "same_spacing") (← getBool j "same_tiles")
+    pure (exceptToJson v3ToJson r)),
   ("storeAligned", fun j => do
     let iop ← getRatList j "iop"
     let ps ← getRatList j "ps"
